@@ -297,6 +297,13 @@ def _fork_from_map(x, proc, fields):
             x.fail(f"{what}: field `{dst}` is written twice")
         out.append((dst, src))
 
+    # a struct literal may be preceded by ONE binding of the fresh process it takes its remaining fields from:
+    # `let [mut] <name> = Self::with_parent_and_group(p, parent.g); Process { …, ..<name> }`
+    fresh_names = {}
+    mlet = re.match(r"let\s+(?:mut\s+)?(\w+)\s*=\s*" + FRESH_CTOR + r"\s*;\s*", t)
+    if mlet and re.match(r"(?:Process|Self)\s*\{", t[mlet.end():]):
+        fresh_names[mlet.group(1)] = (mlet.group(2), mlet.group(3))
+        t = t[mlet.end():].strip()
     lit = re.match(r"(?:Process|Self)\s*\{", t)
     inner = None
     if lit:
@@ -323,8 +330,17 @@ def _fork_from_map(x, proc, fields):
             f, expr = m2.group(1), " ".join((m2.group(2) or m2.group(1)).split())
             listed.add(f)
             src = _parent_read(expr)
+            mfr = re.fullmatch(r"(\w+)\.(\w+)(?:\.clone\(\))?", expr)
             if src is not None:
                 add(f, src)
+            elif mfr and mfr.group(1) in fresh_names:
+                # read back from the fresh process: its ppid / pgid come from the arguments, everything else is fresh
+                if mfr.group(2) == "ppid":
+                    add(f, "@" + fresh_names[mfr.group(1)][0])
+                elif mfr.group(2) == "pgid":
+                    add(f, fresh_names[mfr.group(1)][1])
+                elif mfr.group(2) not in fields:
+                    x.fail(f"{what}: `{expr}`: `{mfr.group(2)}` is not a field of Process")
             elif expr in params and expr != "parent":
                 add(f, "@" + expr)
             elif re.search(r"\bparent\b", expr):
@@ -338,11 +354,12 @@ def _fork_from_map(x, proc, fields):
                 x.fail(f"{what}: struct literal without `..base` does not list {missing}")
         else:
             mb = re.fullmatch(FRESH_CTOR, base)
-            if mb:
+            fresh = (mb.group(1), mb.group(2)) if mb else fresh_names.get(base)
+            if fresh:
                 if "ppid" not in listed:
-                    add("ppid", "@" + mb.group(1))
+                    add("ppid", "@" + fresh[0])
                 if "pgid" not in listed:
-                    add("pgid", mb.group(2))
+                    add("pgid", fresh[1])
             elif re.fullmatch(r"\*?parent(?:\.clone\(\))?|Process::clone\(parent\)|Clone::clone\(parent\)", base):
                 # everything not listed comes from the parent
                 for f in fields:
@@ -350,16 +367,19 @@ def _fork_from_map(x, proc, fields):
                         add(f, f)
             else:
                 x.fail(f"{what}: base expression `..{base}` is neither the fresh-process constructor nor the parent")
-        return out, False
+        # the same table as the assignment shape gives: what the fresh-process constructor takes from the arguments first
+        head = [e for e in out if e[0] in ("ppid", "pgid")]
+        head.sort(key=lambda e: ("ppid", "pgid").index(e[0]))
+        return head + [e for e in out if e[0] not in ("ppid", "pgid")], False
 
     # ---- shape (a): default construction followed by assignments
     stmts = _split_stmts(t)
     tail = stmts.pop()
     if not stmts:
         x.fail(f"{what}: body is neither a struct literal nor `let mut child = …; …; child`")
-    m1 = re.fullmatch(r"let\s+mut\s+(\w+)\s*=\s*" + FRESH_CTOR, stmts[0])
+    m1 = re.fullmatch(r"let\s+(?:mut\s+)?(\w+)\s*=\s*" + FRESH_CTOR, stmts[0])
     if not m1:
-        x.fail(f"{what}: first statement `{stmts[0][:70]}` is not `let mut child = Self::with_parent_and_group(p, parent.g)`")
+        x.fail(f"{what}: first statement `{stmts[0][:70]}` is not `let [mut] <name> = Self::with_parent_and_group(p, parent.g)`")
     var = m1.group(1)
     add("ppid", "@" + m1.group(2))
     add("pgid", m1.group(3))
